@@ -10,6 +10,9 @@ PATTERN = {
   "when":    {feature: value | [alternatives]}     k (kind), dd, step, hop, wrap, inl, kwo, ft, ...
   "slot":    [typ, dbase, dstop, dann, def]        matched against the slot the clause is about
   "any_slot": [...], "any_slot2": [...]            some (other) slot of the description matches
+  "init_slot": [...], "init_ret": [...]            some slot / the return entry of the scenario's *initial* description matches
+                                                   (for later passes whose cause has already been destroyed by an earlier one)
+  "corrupt_before": true               the description the step starts from is already outside the vocabulary
   "ret":     [present, typ, dbase, dstop, dann, def]   the return entry of the description matches
   "no_params": true                    the description has no parameters
   "replay":  {...}                     one concrete failing scenario
@@ -78,13 +81,31 @@ def pattern_matches(p, feat):
     for key in ("any_slot", "any_slot2"):
         if key in p and not any(micro_match(p[key], s) for s in _slots(feat)):
             return False
+    if "init_slot" in p and not any(micro_match(p["init_slot"], c["s"]) for c in feat.get("icomps", []) if "s" in c):
+        return False
+    if "init_ret" in p and not any(micro_match(p["init_ret"], c["r"][1:]) for c in feat.get("icomps", []) if "r" in c):
+        return False
     if "ret" in p:
         r = feat.get("ret")
         if r is None or not micro_match(p["ret"], r[1:]):
             return False
     if p.get("no_params") and feat.get("n", 1) != 0:
         return False
+    if p.get("corrupt_before") and not _corrupt_before(feat):
+        return False
     return True
+
+
+def _corrupt_before(feat):
+    """The description this step started from was already outside the vocabulary (an earlier, separately reported failure)."""
+    for c in feat.get("comps", []):
+        m = c.get("s")
+        if m and (m[0] == "other" or m[1] == "other" or m[3] == "diff" or m[4] in ("other", "codeQ")):
+            return True
+        r = c.get("r")
+        if r and r[1] and (r[2] == "other" or r[3] == "other" or r[5] == "diff" or r[6] in ("other", "codeQ")):
+            return True
+    return False
 
 
 class Matcher:
